@@ -216,6 +216,12 @@ impl<E: Endianness, BR: BitRead<E>, const PRINT: bool> BitRead<E> for CountBitRe
     }
 
     fn skip_bits_after_peek(&mut self, n: usize) {
+        // These bits are consumed from the stream (e.g., by table-based
+        // decoding or by ω codes), so they must be counted.
+        self.bits_read += n;
+        if PRINT {
+            eprintln!("skip_bits_after_peek({}) (total = {})", n, self.bits_read);
+        }
         self.bit_read.skip_bits_after_peek(n)
     }
 }
